@@ -65,7 +65,7 @@ def cmd_import(src, ids):
             demo = os.path.join(src, pid, f"demo{k}.py")
             if not (os.path.exists(patch) and os.path.exists(demo)):
                 continue
-            name = f"{pid}-{k}"
+            name = f"{pid}-{k + int(os.environ.get('SEED_OFFSET', '0'))}"
             dst = os.path.join(ROOT, "seeded", name)
             try:
                 tree = scratch(patch)
